@@ -9,6 +9,7 @@ package c07
 import (
 	"fmt"
 	"os"
+	"sort"
 	"strings"
 	"testing"
 
@@ -87,6 +88,12 @@ func TestProbe(t *testing.T) {
 	v := runOracle(c)
 	fmt.Printf("harnessErr=%q linked=%v unlinkedOK=%v comments=%d emptyStmtCmts=%v\nkey=%q\n%s\n--- formatted:\n%s\n", v.HarnessErr, v.Linked, v.UnlinkedOK, v.NComments, v.EmptyStmtCmts, v.Key, v.Msg, v.Formatted)
 	n, _ := parseSrc(c.Path, c.Source)
+	if _, err := unlinked(n); err != nil {
+		fmt.Printf("unlinked error: %v\n", err)
+	}
+	if _, err := compileLinked(c, c.Source); err != nil {
+		fmt.Printf("link error: %v\n", err)
+	}
 	cs, _ := collectComments(n)
 	for _, x := range cs {
 		fmt.Printf("  IN  %-30q owner=%s braced=%s onEmpty=%v leading=%v\n", x.Text, x.Owner, x.Braced, x.OnEmpty, x.Leading)
@@ -254,8 +261,21 @@ func TestExplore(t *testing.T) {
 	for k, n := range linkFail {
 		fmt.Printf("linkfail %5d %s\n", n, k)
 	}
-	for k, e := range hist {
-		fmt.Printf("==== %s  n=%d\n--- source (%d bytes):\n%s\n--- msg:\n%s\n", k, e.n, len(e.src), e.src, e.msg)
+	var keys []string
+	for k := range hist {
+		keys = append(keys, k)
+	}
+	sort.Strings(keys)
+	for _, k := range keys {
+		e := hist[k]
+		src, msg := e.src, e.msg
+		if !strings.HasPrefix(k, "HARNESS") {
+			c := &Case{Path: "x.proto", Source: e.src, Imports: depFiles}
+			src = minimize(c, k, 1500)
+			c.Source = src
+			msg = runOracle(c).Msg
+		}
+		fmt.Printf("==== %s  n=%d\n--- source (%d bytes):\n%.900s\n--- msg:\n%.900s\n", k, e.n, len(src), src, msg)
 	}
 }
 
@@ -285,7 +305,11 @@ func TestShrink(t *testing.T) {
 		fmt.Printf("==== minimal for %s (%d bytes, rapid gave %d)\n%s\n---- msg\n%s\n", key, len(m), len(lastSrc), m, v.Msg)
 	}()
 	r := evid.R()
-	r.Check(t, n, 7, func(t *rapid.T) {
+	salt := 7
+	if s := os.Getenv("C07_SALT"); s != "" {
+		fmt.Sscanf(s, "%d", &salt)
+	}
+	r.Check(t, n, salt, func(t *rapid.T) {
 		src, _ := genFile(t)
 		c := &Case{Path: "x.proto", Source: src, Imports: depFiles}
 		v := runOracle(c)
